@@ -128,6 +128,54 @@ pub fn drive(log: &mut Log) {
         }
     }
     log.oblige("self_overlap_all_borders");
+    // (a3) texts of 10^5 .. 4*10^6 symbols: the comb family (a^(L-1) b)^r, pattern a^m b; the text is
+    // logged by its parameters and the spec knows the occurrences in closed form
+    for algo in ALGOS.iter() {
+        for (l, r) in [(1000usize, 1000usize), (4096, 257), (65_537, 17), (50, 70_000), (1 << 20, 4)] {
+            case += 1;
+            if !log.mine(case) {
+                continue;
+            }
+            let mut rng = Rng::new(seed, 8, case);
+            let bp = *algo == "shiftand" || *algo == "bndm";
+            let m = if bp { rng.range(0, 63.min(l as i64 - 1)) } else { rng.range(0, 200.min(l as i64 - 1)) } as usize;
+            let (a, b) = (rng.below(256) as u8, 0u8);
+            let a = if a == b { 7 } else { a };
+            let mut p = vec![a; m];
+            p.push(b);
+            if !log.begin("comb", json!({"algo": algo, "p": bytes(&p)})) {
+                continue;
+            }
+            let mut text = vec![a; l * r];
+            for k in 1..=r {
+                text[k * l - 1] = b;
+            }
+            let mut mm: Option<M> = None;
+            log.call("new", json!({}), || {
+                mm = Some(match *algo {
+                    "shiftand" => M::SA(ShiftAnd::new(&p)),
+                    "bndm" => M::BN(BNDM::new(&p)),
+                    "bom" => M::BO(BOM::new(&p)),
+                    "horspool" => M::HO(Horspool::new(&p)),
+                    _ => M::KM(KMP::new(&p)),
+                });
+                json!({})
+            });
+            if let Some(mt) = mm {
+                log.call("find_all_comb", json!({"L": l, "r": r, "m": m, "a": a, "b": b}), || {
+                    let v: Vec<usize> = match &mt {
+                        M::SA(x) => x.find_all(text.iter()).collect(),
+                        M::BN(x) => x.find_all(&text).collect(),
+                        M::BO(x) => x.find_all(&text).collect(),
+                        M::HO(x) => x.find_all(&text).collect(),
+                        M::KM(x) => x.find_all(text.iter()).collect(),
+                    };
+                    json!({"v": usizes(&v)})
+                });
+            }
+            log.oblige("text_of_a_million_symbols");
+        }
+    }
     // (b) word-size boundaries, periodic families, full byte range
     let lens_bp: [usize; 10] = [1, 2, 7, 31, 32, 33, 62, 63, 64, 65];
     let lens_any: [usize; 8] = [1, 2, 3, 16, 33, 64, 65, 70];
